@@ -24,6 +24,11 @@ def run(ctx):
                     "An instance is non-trivial when its discharge needed a branch fact, summary or table (not A-OVF).")
     rs = roots(ctx, report)
     reach = panicrule.check_panics(ctx, report, rs, "C01-R1", "C01")
+    import loops
+    nloops = loops.check_loops(ctx, report, reach, "C01-R2")
+    report.floor("loops reachable from the parser", nloops, 6)
+    allocs = report.extra.get("sites_by_kind", {}).get("call:alloc", 0)
+    report.floor("allocation requests reachable from the parser", allocs, 1)
     parse_impls = [b for b in ctx.prog.method_bodies("wire_format::WireFormat", "parse") if b.id in reach]
     report.floor("WireFormat::parse impls reachable", len(parse_impls), 43)
     report.assumptions += ["A-OVF: usize/u64 additions cannot wrap without >= 2^63 bytes of input",
